@@ -26,7 +26,7 @@ type wireVec struct {
 	Bytes []int    `json:"bytes"`
 }
 
-var wirePriors = []string{"nil", "shorter", "longer", "sparecap"}
+var wirePriors = []string{"nil", "shorter", "longer", "sparecap", "tightcap"}
 
 func wireTail(t wireType) []byte {
 	last := t
@@ -347,7 +347,7 @@ func wireRejudgeLine(env *vk.Env, raw []byte) (sig, detail string, rejected bool
 }
 
 func runC06(env *vk.Env) {
-	env.Cov.Rule = "TLC enumerates Wire.tla's menu of type expressions (all scalar field types, Option/Opt/Ary with all eight length-prefix types/Tuple to depth 3) x boundary values, checks Dec(Enc(v)) = (v, n) with a tail and that strict prefixes fail, and prints one vector per state; every vector runs on the real fields (2 API variants x 4 prior destination shapes x 2 reader kinds, Marshal/Builder/Scan). Random compositions/values are recorded and judged by Wire_Trace. Distinct/non-trivial = distinct type-expression classes exercised."
+	env.Cov.Rule = "TLC enumerates Wire.tla's menu of type expressions (all scalar field types, Option/Opt/Ary with all eight length-prefix types/Tuple to depth 3) x boundary values, checks Dec(Enc(v)) = (v, n) with a tail and that strict prefixes fail, and prints one vector per state; every vector runs on the real fields (2 API variants x 5 prior destination shapes x 2 reader kinds, Marshal/Builder/Scan). Random compositions/values are recorded and judged by Wire_Trace. Distinct/non-trivial = distinct type-expression classes exercised."
 	env.Assume = []string{"NaN payloads are compared by bit pattern", "Opt with unsupported Has kinds (documented panic) is not generated", "NBT fields are covered with the NBT specification (C01)"}
 	res := env.MustSpec(vk.TLCRun{Name: "S+A Wire_MC", Module: "Wire", Cfg: "Wire_MC.cfg", Workers: 8, Timeout: 15 * time.Minute})
 	if res == nil {
@@ -388,7 +388,7 @@ func runC06(env *vk.Env) {
 			continue
 		}
 		in := append(bytesOf(ev.Bytes), wireTail(t)...)
-		tr.Add(wireDecEvent(t, variant, in, wirePriors[rng.Intn(4)], v, rng.Intn(2) == 0, "valid"))
+		tr.Add(wireDecEvent(t, variant, in, wirePriors[rng.Intn(len(wirePriors))], v, rng.Intn(2) == 0, "valid"))
 		env.Distinct("rand/" + t.class())
 		if tr.N >= 20000 { // TLC loads a trace file into memory: judge in chunks
 			part++
